@@ -311,7 +311,12 @@ fn conv_level(t: &mut Tape<'_>, o: &ConvOpts, depth: usize, name: &str) -> CmdSp
                 }
             }
             // an alias (visible or hidden) of the long flag
-            let lfa = if lf.is_some() && t.chance(1, 3) { take(t, &mut longs).map(|s| (s.to_owned(), t.bool())) } else { None };
+            // (one subcommand in eight that has no long flag is reachable through a long flag alias alone)
+            let lfa = if (lf.is_some() && t.chance(1, 3)) || (lf.is_none() && o.flag_subcommands && t.chance(1, 8)) {
+                take(t, &mut longs).map(|s| (s.to_owned(), t.bool()))
+            } else {
+                None
+            };
             heads.push((n, aliases, sf, lf, lfa));
         }
         for (n, aliases, sf, lf, lfa) in heads {
@@ -357,7 +362,8 @@ fn name_arg(t: &mut Tape<'_>, a: &mut ArgSpec, longs: &mut Vec<&'static str>, sh
     if w != 1 || a.short.is_none() {
         a.long = take(t, longs).map(|s| s.to_owned());
     }
-    if a.long.is_some() && t.chance(1, 4) {
+    // (a short-only argument may carry long aliases as well)
+    if (a.long.is_some() || a.short.is_some()) && t.chance(1, 4) {
         if let Some(al) = take(t, longs) {
             a.aliases.push((al.to_owned(), t.bool()));
         }
